@@ -13,13 +13,14 @@ EXTENDS Integers, Sequences, FiniteSets, TLC
 
 CONSTANT D_XmlCaseEmpty     \* F17: `case MIMEXML:` has an empty body (Go does not fall through), application/xml is skipped
 
-Helpers == {"Text", "HTML", "JSON", "JSONBytes", "JSONP", "XML", "Blob", "Stream", "NoContent", "Redirect", "HTTPError",
+\* ("MustRender" / "ShouldRender": the entry points that take a renderer, here the JSON renderer)
+Helpers == {"Text", "HTML", "JSON", "JSONBytes", "JSONP", "XML", "Blob", "Stream", "NoContent", "Redirect", "HTTPError", "MustRender", "ShouldRender",
             "render.Text", "render.JSON", "render.XML", "render.JSONP", "render.Blob"}
 \* helpers that go through the renderers of pkg/render keep a Content-Type the caller has already set
-KeepsPreset(h) == h \in {"JSON", "JSONP", "XML", "render.Text", "render.JSON", "render.XML", "render.JSONP", "render.Blob"}
+KeepsPreset(h) == h \in {"JSON", "JSONP", "XML", "MustRender", "ShouldRender", "render.Text", "render.JSON", "render.XML", "render.JSONP", "render.Blob"}
 DocType(h) == CASE h \in {"Text", "render.Text", "HTTPError"} -> "text/plain; charset=utf-8"
                 [] h = "HTML" -> "text/html; charset=utf-8"
-                [] h \in {"JSON", "JSONBytes", "render.JSON"} -> "application/json; charset=utf-8"
+                [] h \in {"JSON", "JSONBytes", "render.JSON", "MustRender", "ShouldRender"} -> "application/json; charset=utf-8"
                 [] h \in {"JSONP", "render.JSONP"} -> "application/javascript; charset=utf-8"
                 [] h \in {"XML", "render.XML"} -> "application/xml; charset=utf-8"
                 [] h \in {"Blob", "Stream", "render.Blob"} -> "image/custom"        \* the type given by the caller
@@ -27,7 +28,7 @@ DocType(h) == CASE h \in {"Text", "render.Text", "HTTPError"} -> "text/plain; ch
                 [] OTHER -> ""
 \* value classes and which encoders can encode them
 VClasses == {"str_plain", "str_html", "str_ctrl", "str_unicode", "map_nested", "struct", "bytes", "chan"}
-Encoder(h) == CASE h \in {"JSON", "JSONP", "render.JSON", "render.JSONP"} -> "json" [] h \in {"XML", "render.XML"} -> "xml" [] OTHER -> "raw"
+Encoder(h) == CASE h \in {"JSON", "JSONP", "render.JSON", "render.JSONP", "MustRender", "ShouldRender"} -> "json" [] h \in {"XML", "render.XML"} -> "xml" [] OTHER -> "raw"
 Encodable(h, vc) == CASE Encoder(h) = "json" -> vc # "chan"
                       [] Encoder(h) = "xml" -> vc \notin {"chan", "map_nested", "bytes"}     \* encoding/xml has no encoding for maps and byte slices
                       [] OTHER -> vc \in {"str_plain", "str_html", "str_ctrl", "str_unicode", "bytes"}
